@@ -75,7 +75,22 @@ Fixpoint segs_of (m : mat) (cur start : qpt) (g : list gcmd) : list seg :=
   end.
 
 Definition zero_line (s : seg) : bool := (skind s =? 1)%Z && ptclose (sp0 s) (sp1 s).
-Definition nz_segs (m : mat) (g : list gcmd) : list seg := filter (fun s => negb (zero_line s)) (segs_of m (0, 0) (0, 0) g).
+(** two consecutive lines of which the second continues the first in exactly the same direction trace one line (Path.Close
+    turns a final LineTo that points straight at the start point into the Close itself: "M29.5 2.25L21.5 10.25L29.5 21.5V3Z"
+    is stored as M29.5 2.25L21.5 10.25L29.5 21.5z).  Exact test, so it applies to the specification's rational segments. *)
+Definition continues (a b : seg) : bool :=
+  (skind a =? 1)%Z && (skind b =? 1)%Z && peq (sp1 a) (sp0 b) && same_dir (psub (sp1 a) (sp0 a)) (psub (sp1 b) (sp0 b)).
+Fixpoint merge_lines (l : list seg) : list seg :=
+  match l with
+  | a :: t =>
+      match merge_lines t with
+      | b :: t' => if continues a b then mkSeg 1 (sp0 a) (0, 0) (0, 0) (sp1 b) noarc :: t' else a :: b :: t'
+      | [] => [a]
+      end
+  | [] => []
+  end.
+Definition nz_segs (m : mat) (g : list gcmd) : list seg :=
+  merge_lines (filter (fun s => negb (zero_line s)) (segs_of m (0, 0) (0, 0) g)).
 
 (** the same ellipse has several (rx, ry, rotation) descriptions: canonical form rx >= ry, rotation in [0,180), 0 for circles *)
 Definition arc_norm (a : Q * Q * Q * bool * bool) : Q * Q * Q * bool * bool :=
